@@ -222,35 +222,64 @@ def path_agreement(ctx, P, py, rule="NEWICK-PATHS"):
            "`%s` undercounts digits (0 for every value below 10, one short for powers of ten): the C path gets a buffer that is too "
            "small for chains of labelled nodes" % ast.unparse(ceil_logs[0])[:60])
     tm = py.mod("text_formats")
-    bn = py.func("text_formats", "_build_newick")
-    # the ':' branch length append must be inside the loop over children
-    loops = [l for l in ast.walk(bn) if isinstance(l, ast.For) and "tree.children(node)" in ast.unparse(l.iter)]
-    ctx.ob(rule, "py|children-loop", len(loops) == 1, tm.loc(bn), "one loop over tree.children(node)")
-    inside = set()
-    for l in loops:
-        for x in ast.walk(l):
-            inside.add(id(x))
-    colon = [c for c in ast.walk(bn) if isinstance(c, ast.Constant) and isinstance(c.value, str) and c.value.startswith(":")]
-    ok = bool(colon) and all(id(c) in inside for c in colon)
-    ctx.ob(rule, "py|branch-per-child", ok, tm.loc(colon[0] if colon else bn),
-           "branch lengths are appended per child inside the children loop (the chosen root never gets one)" if ok else
-           "a branch length is appended outside the per-child loop: a subtree root with a parent gets a spurious length")
-    # name-independent: ':{0:.{1}f}'.format(X, precision) where X is tree.branch_length(<loop variable>) or a local defined so
-    okf = False
-    for c in ast.walk(bn):
-        if isinstance(c, ast.Call) and isinstance(c.func, ast.Attribute) and c.func.attr == "format" and isinstance(c.func.value, ast.Constant) \
-                and c.func.value.value == ":{0:.{1}f}" and len(c.args) == 2 and ast.unparse(c.args[1]) == "precision":
-            x = c.args[0]
-            child = loops[0].target.id if loops and isinstance(loops[0].target, ast.Name) else None
-            want = "tree.branch_length(%s)" % child
-            if ast.unparse(x) == want:
-                okf = True
-            elif isinstance(x, ast.Name):
-                ds = [a for a in ast.walk(bn) if isinstance(a, ast.Assign) and any(isinstance(t, ast.Name) and t.id == x.id for t in a.targets)]
-                okf = len(ds) == 1 and ast.unparse(ds[0].value) == want
-    ctx.ob(rule, "py|branch-format", okf, tm.loc(bn), "':{0:.{1}f}'.format(tree.branch_length(child), precision)")
-    ctx.ob(rule, "py|branch-cond", all(ast.unparse(i.test) in ("include_branch_lengths", "tree.is_leaf(node)") for i in ast.walk(bn) if isinstance(i, ast.If)),
-           tm.loc(bn), "branch length depends only on include_branch_lengths")
+    bn = tm.funcs.get("_build_newick")
+    if bn is None:
+        # the general path was restructured (e.g. made iterative): the recursive shape witnesses do not apply; what must still
+        # hold is that the chosen root never gets a branch length: the ':' suffix is appended per child of a children loop, or
+        # under a test that compares the node with `root` (a parent-is-NULL test gives a non-root subtree root a spurious length)
+        bn = py.func("text_formats", "build_newick")
+        colon = [c for c in ast.walk(bn) if isinstance(c, ast.Constant) and isinstance(c.value, str) and c.value.startswith(":")]
+        ctx.need(bool(colon), "text_formats.build_newick: branch length suffix")
+        par = {}
+        for x in ast.walk(bn):
+            for ch in ast.iter_child_nodes(x):
+                par[id(ch)] = x
+        okc = True
+        for c in colon:
+            x, good = c, False
+            while id(x) in par:
+                x = par[id(x)]
+                if isinstance(x, ast.For) and "children(" in ast.unparse(x.iter):
+                    good = True
+                if isinstance(x, ast.If) and any(isinstance(n, ast.Name) and n.id == "root" for n in ast.walk(x.test)):
+                    good = True
+            okc = okc and good
+        ctx.ob(rule, "py|branch-per-child", okc, tm.loc(colon[0]),
+               "branch lengths are appended per child or under a comparison with `root` (the chosen root never gets one)" if okc else
+               "a branch length is appended under a test that does not mention `root`: a subtree root with a parent gets a spurious length")
+        okf = any(isinstance(c, ast.Call) and isinstance(c.func, ast.Attribute) and c.func.attr == "format" and isinstance(c.func.value, ast.Constant)
+                  and c.func.value.value == ":{0:.{1}f}" and len(c.args) == 2 and ast.unparse(c.args[1]) == "precision" for c in ast.walk(bn))
+        ctx.ob(rule, "py|branch-format", okf, tm.loc(bn), "':{0:.{1}f}'.format(<branch length>, precision)")
+    else:
+        # the ':' branch length append must be inside the loop over children
+        loops = [l for l in ast.walk(bn) if isinstance(l, ast.For) and "tree.children(node)" in ast.unparse(l.iter)]
+        ctx.ob(rule, "py|children-loop", len(loops) == 1, tm.loc(bn), "one loop over tree.children(node)")
+        inside = set()
+        for l in loops:
+            for x in ast.walk(l):
+                inside.add(id(x))
+        colon = [c for c in ast.walk(bn) if isinstance(c, ast.Constant) and isinstance(c.value, str) and c.value.startswith(":")]
+        ok = bool(colon) and all(id(c) in inside for c in colon)
+        ctx.ob(rule, "py|branch-per-child", ok, tm.loc(colon[0] if colon else bn),
+               "branch lengths are appended per child inside the children loop (the chosen root never gets one)" if ok else
+               "a branch length is appended outside the per-child loop: a subtree root with a parent gets a spurious length")
+        # name-independent: ':{0:.{1}f}'.format(X, precision) where X is tree.branch_length(<loop variable>) or a local defined so
+        okf = False
+        for c in ast.walk(bn):
+            if isinstance(c, ast.Call) and isinstance(c.func, ast.Attribute) and c.func.attr == "format" and isinstance(c.func.value, ast.Constant) \
+                    and c.func.value.value == ":{0:.{1}f}" and len(c.args) == 2 and ast.unparse(c.args[1]) == "precision":
+                x = c.args[0]
+                child = loops[0].target.id if loops and isinstance(loops[0].target, ast.Name) else None
+                want = "tree.branch_length(%s)" % child
+                if ast.unparse(x) == want:
+                    okf = True
+                elif isinstance(x, ast.Name):
+                    ds = [a for a in ast.walk(bn) if isinstance(a, ast.Assign) and any(isinstance(t, ast.Name) and t.id == x.id for t in a.targets)]
+                    okf = len(ds) == 1 and ast.unparse(ds[0].value) == want
+        ctx.ob(rule, "py|branch-format", okf, tm.loc(bn), "':{0:.{1}f}'.format(tree.branch_length(child), precision)")
+        ctx.ob(rule, "py|branch-cond", all(ast.unparse(i.test) in ("include_branch_lengths", "tree.is_leaf(node)") for i in ast.walk(bn) if isinstance(i, ast.If)),
+               tm.loc(bn), "branch length depends only on include_branch_lengths")
+
     for name in ("write_fasta", "write_nexus"):
         f = py.func("text_formats", name)
         # structural, name-independent: a loop over zip(ts.samples(), <alignments>) whose label uses the first target
